@@ -97,6 +97,20 @@ _SESSION_GUARD = _alloc()      # one session at a time per process
 _ACTIVE = None                 # the running Scheduler (token mode), else None
 
 
+def install_process_wide():
+  """Makes `threading.Lock/RLock/Condition` cooperative for the whole process.
+
+  Call it BEFORE importing the code under test, so that locks which that code
+  creates at import time (module-level locks) are cooperative as well; a real
+  lock held by a descheduled worker would stall the session. Outside a token
+  session (and for threads that are not workers) the cooperative primitives
+  block exactly like the real ones.
+  """
+  threading.Lock = CoopLock
+  threading.RLock = CoopRLock
+  threading.Condition = CoopCondition
+
+
 class SchedulerAbort(BaseException):
   """Raised inside workers to unwind a session that is being abandoned."""
 
@@ -149,6 +163,9 @@ class CoopLock:
 
   def locked(self):
     return self._real.locked()
+
+  def _at_fork_reinit(self):        # used by stdlib modules (logging, futures)
+    self._real._at_fork_reinit()
 
   __enter__ = acquire
 
@@ -207,6 +224,11 @@ class CoopRLock:
 
   def _is_owned(self):
     return self._owner == _get_ident()
+
+  def _at_fork_reinit(self):
+    self._block._at_fork_reinit()
+    self._owner = None
+    self._count = 0
 
   def __repr__(self):
     return f'<CoopRLock owner={self._owner} count={self._count} at {id(self):#x}>'
@@ -701,6 +723,7 @@ class Scheduler:
         registered.acquire()
       self._install_monitoring()
       installed_mon = True
+      prev_factories = (threading.Lock, threading.RLock, threading.Condition)
       if self.patch_locks:
         threading.Lock = CoopLock
         threading.RLock = CoopRLock
@@ -727,9 +750,7 @@ class Scheduler:
         self._wake_all()
       _ACTIVE = None
       if patched:
-        threading.Lock = _RealLock
-        threading.RLock = _RealRLock
-        threading.Condition = _RealCondition
+        threading.Lock, threading.RLock, threading.Condition = prev_factories
       if installed_mon:
         self._remove_monitoring()
       sys.setswitchinterval(old_interval)
